@@ -74,7 +74,27 @@ func errGen(t *rapid.T) *prog.ErrSpec {
 		e.Details = []prog.DetailSpec{{Kind: rapid.SampledFrom([]string{"ping", "duration", "string"}).Draw(t, "dkind"), N: 12, S: "dé"}}
 	}
 	e.Meta = kvGen(t, "X-Err-", "meta")
+	// an error forwarded from an upstream gRPC call carries the upstream's
+	// protocol trailers in its metadata; the handler must still emit exactly
+	// one, correct, grpc-status
+	if rapid.IntRange(0, 3).Draw(t, "forwarded") == 0 {
+		e.Meta = append(e.Meta, prog.KV{K: "Grpc-Status", V: rapid.SampledFrom([]string{"0", "7", "14"}).Draw(t, "upstreamStatus")}, prog.KV{K: "Grpc-Message", V: "upstream%20said"})
+		if rapid.Bool().Draw(t, "upstreamDetails") {
+			e.Meta = append(e.Meta, prog.KV{K: "Grpc-Status-Details-Bin", V: "CAcSCHVwc3RyZWFt"})
+		}
+	}
 	return e
+}
+
+// appMeta drops the protocol's own keys from an error's metadata.
+func appMeta(kvs []prog.KV) []prog.KV {
+	var out []prog.KV
+	for _, kv := range kvs {
+		if !strings.HasPrefix(kv.K, "Grpc-") {
+			out = append(out, kv)
+		}
+	}
+	return out
 }
 
 func genH(transports []string) func(t *rapid.T) HCase {
@@ -282,7 +302,7 @@ func checkH(tt *testing.T, c HCase) (pbt.Info, error) {
 		}
 	}
 	if c.Err != nil {
-		if err := prog.SubsequenceOf(prog.KVMap(c.Err.Meta), union); err != nil {
+		if err := prog.SubsequenceOf(prog.KVMap(appMeta(c.Err.Meta)), union); err != nil {
 			return info, fmt.Errorf("%s: error metadata: %v", where, err)
 		}
 	}
